@@ -4,7 +4,7 @@
     abstraction [T]; [resolve fuel T 0 t] is [t] with every inference variable replaced by the
     value of its class, or by its class representative if the class is unbound.  Fuel bounds
     the chains of bindings followed; all statements are about runs that do not exhaust it. *)
-From Chalk Require Import Ir.Syntax Ir.Fold Infer.Canon Infer.UCanon.
+From Chalk Require Import Ir.Syntax Ir.Fold Infer.Canon Infer.UCanon Infer.Invert.
 
 (** Unknowns are numbered by first occurrence, with the kind of that occurrence and the
     universe of the class; every occurrence becomes the bound variable of that number. *)
@@ -77,3 +77,15 @@ Theorem ucanon_roundtrip_refuted :
 Proof. exact ucanon_roundtrip_refuted_lemma. Qed.
 Check ucanon_roundtrip_refuted :
   exists c n c' m, u_canonicalize c = Ok (n, c', m) /\ map_from_canonical_orig m c' <> Ok c.
+
+(** [invert] refuses values with unbound unknowns and otherwise turns every type / lifetime
+    placeholder into an existential (constant placeholders are left alone by the code). *)
+Theorem invert_gives_up : forall fuel T t c fr, canonicalize fuel T t = Done (c, fr) -> fr <> [] ->
+  invert_then_canonicalize fuel T t = Done None.
+Proof. exact invert_gives_up_lemma. Qed.
+Check invert_gives_up : forall fuel T t c fr, canonicalize fuel T t = Done (c, fr) -> fr <> [] ->
+  invert_then_canonicalize fuel T t = Done None.
+
+Theorem invert_no_placeholders : forall fuel T t v T', invert fuel T t = Done (Some (v, T')) -> no_tl_ph v = true.
+Proof. exact invert_no_placeholders_lemma. Qed.
+Check invert_no_placeholders : forall fuel T t v T', invert fuel T t = Done (Some (v, T')) -> no_tl_ph v = true.
